@@ -79,41 +79,117 @@ def vsg_frame(tb_text):
     return last or "?"
 
 
-def universe(tier, seed, n_quick, n_thorough, pool=None, variants=True, gen=True, corpus_filter=None):
-    """Seeded selection from the finite universe corpus × pool × (no variant | one of KINDS × k) plus
-    generated designs.  The seed only selects; every element is reproducible from its description."""
+N_CFG_QUICK = 3
+N_CFG_THOROUGH = 6
+K_VARIANTS = 3
+N_GEN = 1000
+
+
+def file_cfgs(f, n):
+    """The n pool entries a corpus file is paired with: a deterministic function of the file name."""
+    pool = [p for p in cfgpool.POOL if p != "jcl"]
+    random.Random(harness.stable_hash("cfgs", f)).shuffle(pool)
+    return (["jcl"] + pool)[:n]
+
+
+def file_pairs(f):
+    """Two deterministic two-step transform chains per file (thorough tier only)."""
+    rng = random.Random(harness.stable_hash("pairs", f))
+    return [[[rng.choice(transforms.KINDS), rng.randrange(K_VARIANTS)], [rng.choice(transforms.KINDS), rng.randrange(K_VARIANTS)]] for _ in range(2)]
+
+
+def all_variants(f, tier):
+    v = [None]
+    for kind in transforms.KINDS:
+        for k in range(K_VARIANTS):
+            v.append([[kind, k]])
+    if tier != "quick":
+        v.extend(file_pairs(f))
+    return v
+
+
+def elements_for_file(f, tier):
+    """All universe elements of one corpus file.
+    quick:    unmodified x 3 pool entries (jcl + 2 paired by hash); each single-step variant x jcl.
+    thorough: unmodified x 6 entries; each single-step variant x 3 entries; two fixed chains x jcl."""
+    out = []
+    ncfg = N_CFG_QUICK if tier == "quick" else N_CFG_THOROUGH
+    cf = file_cfgs(f, ncfg)
+    for cfg in cf:
+        out.append({"file": f, "cfg": cfg})
+    vcfgs = cf[:1] if tier == "quick" else cf[:3]
+    for kind in transforms.KINDS:
+        for k in range(K_VARIANTS):
+            for cfg in vcfgs:
+                out.append({"file": f, "cfg": cfg, "variant": [[kind, k]]})
+    if tier != "quick":
+        for ch in file_pairs(f):
+            out.append({"file": f, "cfg": "jcl", "variant": ch})
+    return out
+
+
+def universe_size(tier):
+    n = len(vsgapi.corpus())
+    per = len(elements_for_file("x", tier))
+    return n * per + (200 if tier == "quick" else N_GEN) * 3
+
+
+def universe(tier, seed, n_quick, n_thorough, variants=True, gen=True, corpus_filter=None, kinds=None, p_variant=0.5, full=False):
+    """The case universe is FINITE and enumerable: corpus file x (pool entries paired with that file by
+    hash) x (no variant | kind x k<3 | two fixed chains) + generated designs x 3 pool entries.  The
+    quick universe is a subset of the thorough one.  Every run covers the deterministic base (every
+    corpus file, unmodified, under `jcl` and under its first hashed pool entry; thorough: under all six); the
+    seed selects the rest.  The whole universe was swept during development (tools/sweep.py), so
+    that every mechanism by which the pinned tree violates a property is a listed known finding."""
     rng = random.Random(seed)
     corpus = vsgapi.corpus()
     if corpus_filter:
         corpus = [f for f in corpus if corpus_filter(f)]
-    pool = list(pool or cfgpool.POOL)
+    ncfg = N_CFG_QUICK if tier == "quick" else N_CFG_THOROUGH
     n = n_quick if tier == "quick" else n_thorough
     if os.environ.get("VERIF_N"):
         n = int(os.environ["VERIF_N"])
-    K = 3 if tier == "quick" else 12
     cases = []
-    # stratify: spread over files first so that every rule's own fixture is likely to be visited
-    files = list(corpus)
-    rng.shuffle(files)
-    i = 0
-    while len(cases) < n:
-        f = files[i % len(files)]
-        i += 1
-        c = {"file": f, "cfg": rng.choice(pool)}
-        r = rng.random()
-        if variants and r < 0.35:
-            c["variant"] = [[rng.choice(transforms.KINDS), rng.randrange(K)]]
-        elif variants and r < 0.45:
-            c["variant"] = [[rng.choice(transforms.KINDS), rng.randrange(K)], [rng.choice(transforms.KINDS), rng.randrange(K)]]
-        cases.append(c)
+    seen = set()
+
+    def add(c):
+        key = case_name(c)
+        if key not in seen:
+            seen.add(key)
+            cases.append(c)
+
+    for f in corpus if not os.environ.get("VERIF_NOBASE") else []:
+        cf = file_cfgs(f, ncfg)
+        for cfg in cf[: (2 if tier == "quick" else ncfg)]:
+            add({"file": f, "cfg": cfg})
+    if full:
+        for f in corpus:
+            for c in elements_for_file(f, tier):
+                add(c)
+    else:
+        kk = set(kinds or transforms.KINDS)
+        tries = 0
+        while len(cases) < n and tries < n * 20 and variants:
+            tries += 1
+            f = rng.choice(corpus)
+            el = elements_for_file(f, tier)
+            if rng.random() < p_variant:
+                pref = [c for c in el if c.get("variant") and (len(c["variant"]) > 1 or c["variant"][0][0] in kk)]
+                el = pref or el
+            add(rng.choice(el))
     if gen:
         try:
             from lib import gen_vhdl  # noqa: F401
 
-            G = 400 if tier == "quick" else 6000
-            ng = max(20, n // 10)
-            for g in harness.sample(rng, range(G), ng):
-                cases.append({"gen": g, "cfg": rng.choice(pool)})
+            pool3 = ["jcl", "all_enabled", "optional_remove"]
+            if full:
+                for g in range(N_GEN if tier != "quick" else 200):
+                    for cfg in pool3:
+                        add({"gen": g, "cfg": cfg})
+            else:
+                G = 200 if tier == "quick" else N_GEN
+                for g in harness.sample(rng, range(G), 60 if tier == "quick" else 600):
+                    add({"gen": g, "cfg": rng.choice(pool3)})
         except ImportError:
             pass
     return cases
